@@ -33,12 +33,13 @@ func init() {
 			"Oracle: a correct, timely evidence is confirmed by the builder (block carries slash data), every importer accepts that block unchanged, the validator is expelled and set offline, PenaltyTo grows by " +
 			"exactly the amount the validator (tokens + unfinished withdrawals) loses, that amount is > 0 and <= the configured fraction of its tokens, and it happens exactly once however often the " +
 			"evidence is repeated; untimely or invalid evidence changes nothing. Non-trivial = at least one evidence fault fired.",
-		Real: []string{"staking (evidence intake, slashing/replaySlashing, processDoubleSignV5, doPenalize/takePenalty)", "miner.worker (EndBlock isSeal=true)", "core.BlockChain import (EndBlock isSeal=false)", "core/state", "BLS"},
-		Stub: []string{"consensus rounds: forge engine (genuine credentials and quorums signed with validator keys the simulator holds)"},
+		Real:        []string{"staking (evidence intake, slashing/replaySlashing, processDoubleSignV5, doPenalize/takePenalty)", "miner.worker (EndBlock isSeal=true)", "core.BlockChain import (EndBlock isSeal=false)", "core/state", "BLS"},
+		Stub:        []string{"consensus rounds: forge engine (genuine credentials and quorums signed with validator keys the simulator holds)"},
 		QuickBudget: 25 * time.Second, ThoroughBudget: 8 * time.Minute,
-		MinRuns:     6,
-		Exec:        run,
-		PanicClass:  kit.PanicInRepo("chain-panic"),
+		MinRuns:        6,
+		Exec:           run,
+		ExpectedProbes: []string{"block-with-slash-data", "equivocation-punished-once"},
+		PanicClass:     kit.PanicInRepo("chain-panic"),
 	})
 }
 
@@ -90,11 +91,11 @@ func run(r *kit.Run) {
 		slashed := map[common.Address]bool{}
 		nBlocks := 4 + c.Intn("blocks", 8)
 		type planned struct {
-			ev      staking.Evidence
-			target  common.Address
-			round   uint64
-			valid   bool
-			what    string
+			ev     staking.Evidence
+			target common.Address
+			round  uint64
+			valid  bool
+			what   string
 		}
 		var carry []planned // evidences to re-submit later (late)
 		// the Byzantine minority: one or two validators (never all of them: with no online
